@@ -12,7 +12,7 @@ import json, os, re
 from collections import Counter
 
 PKG = "vcr/verifier"
-HARNESS = ["vcr/verifier/zz_verif_c01_test.go"]
+HARNESS = ["vcr/verifier/zz_verif_c01_test.go", "vcr/verifier/zz_verif_c01x_test.go"]
 PKG2 = "vcr/test"
 HARNESS2 = ["vcr/test/zz_verif_c01s_test.go"]
 PKG3 = "vcr/credential"
@@ -35,7 +35,10 @@ REQUIRED = ["check_order_irrelevant_for_accept", "valid_only_if", "key_is_from_t
             "filterOnDIDMethod_sublist", "filterOnDIDMethod_spec", "autoCorrect_leaves_signed_unchanged", "autoCorrect_only_fills_gaps",
             "autoCorrect_attributes_to_requester", "fact_valid_operation_types", "fact_subject_and_util_control_flow",
             "presentation_with_foreign_credential_is_rejected", "revocation_store_fault_is_never_valid",
-            "revocation_store_fault_is_never_valid_vp", "fact_revocation_store_read_errors"]
+            "revocation_store_fault_is_never_valid_vp", "fact_revocation_store_read_errors",
+            "fact_algorithm_fits_key_table", "fact_status_list_constants",
+            "issued_credential_passes_its_validator", "issuer_refuses_malformed_authorization_credential", "api_vp_valid_only_if",
+            "ambObj_iff", "amb_order_irrelevant", "topVariant_iff", "caseVariantMember_false_iff"]
 
 SCAN_KINDS = ("time", "flags", "trust", "revoked")
 PROOF_OPTS = ("shape", "typ", "vm", "purpose", "created", "expires", "domain", "challenge", "nonce")
@@ -322,7 +325,7 @@ def run_subject_legs(ctx, facts):
 def run(ctx):
     ctx.level = "proof (decision logic) + conditional tamper-evidence; PARTIAL by construction on canonicalisation and cryptography (contracts)"
     facts = ctx.facts()
-    thms = ctx.build_and_audit(["NutsProofs.Props.C01", "NutsProofs.Props.C01Subject"])
+    thms = ctx.build_and_audit(["NutsProofs.Props.C01", "NutsProofs.Props.C01Subject", "NutsProofs.Props.C01CaseVariant"])
     for r in REQUIRED:
         if not any(t.endswith("Props." + r) for t in thms):
             ctx.oblige("thm-present:" + r, False, "theorem missing or its module does not build")
@@ -458,6 +461,32 @@ def run(ctx):
                               "foreign-subject-in-vp.jsonl", replay_text(i))
     ctx.oblige("oracle:signer-is-subject-of-EVERY-carried-credential(impl)", foreign_accepted == 0 and (n_subj > 0 or bool(ctx.replay)),
                f"{foreign_accepted} accepted of {n_subj} mixed-subject presentations")
+
+    # deepening round: caseVariantMember as a function — independent recomputation from the document text (simple case folding over the
+    # generator's alphabet: ASCII letters, U+017F long s, U+212A Kelvin sign)
+    def fold_name(name):
+        return "".join("S" if ch == "\u017f" else "K" if ch == "\u212a" else ch.upper() if ch.isascii() else ch for ch in name)
+
+    def ambiguous(v):
+        if isinstance(v, dict):
+            fs = [fold_name(k_) for k_ in v]
+            return len(set(fs)) != len(fs) or any(ambiguous(x) for x in v.values())
+        if isinstance(v, list):
+            return any(ambiguous(x) for x in v)
+        return False
+    cv_bad = n_cv = 0
+    for i, op in enumerate(ops):
+        if op.get("op") == "case-variant" and impl[i] in ("clean", "variant"):
+            n_cv += 1
+            doc = json.loads(op["text"])
+            want = any(m != f and fold_name(m) == fold_name(f) for m in doc for f in op.get("fields") or []) or ambiguous(doc)
+            if want != (impl[i] == "variant"):
+                cv_bad += 1
+                ctx.violation("C01:case-variant-guard:" + ("misses-a-case-variant-member" if want else "refuses-a-clean-document"),
+                              f"caseVariantMember says `{impl[i]}` for a document (decoded into {op.get('into')}) that " + ("has" if want else "has no") + " case-variant member names",
+                              "case-variant.jsonl", ops_raw[i] + "\n")
+    ctx.cov["case_variant_guard_ops"] = dict(Counter(impl[i] for i, op in enumerate(ops) if op.get("op") == "case-variant"))
+    ctx.oblige("oracle:case-variant-guard-finds-every-case-variant-member-at-any-depth(impl)", cv_bad == 0 and (n_cv > 0 or bool(ctx.replay)), f"{cv_bad} wrong of {n_cv}")
 
     # revocation is permanent from the verifier's point of view: once a verification of a document reported "revoked", every later
     # verification of the same document on that node reports revoked (refreshes of a status list must not resurrect it)
